@@ -59,6 +59,9 @@ def run_flatten_elem_case(p):
 
     def gen(d):
         if d == 0 or rng.random() < 0.3:
+            if p.get('predicates') and rng.random() < 0.4:
+                # a @predicate function over the element and the parent it was taken from (or the parent's size as a value)
+                return ('pair', rng.choice(['fn_parent', 'fn_value']), rng.choice([0, 1, 2]))
             if rng.random() < 0.65:
                 return ('elem', rng.choice(['lt', 'le', 'gt', 'ge', 'eq', 'ne']), rng.choice([1, 2, 3, 4]))
             return ('par', rng.choice(['lt', 'ge', 'eq', 'ne']), rng.choice([1, 2, 3]))
@@ -74,6 +77,8 @@ def run_flatten_elem_case(p):
             return O.OPS[c[1]](e, c[2])
         if c[0] == 'par':
             return O.OPS[c[1]](o.size, c[2])
+        if c[0] == 'pair':
+            return e <= o.size + c[2]
         if c[0] == 'not':
             return not holds(c[1], o, e)
         return (holds(c[1], o, e) and holds(c[2], o, e)) if c[0] == 'and' else (holds(c[1], o, e) or holds(c[2], o, e))
@@ -83,12 +88,14 @@ def run_flatten_elem_case(p):
             return O.OPS[c[1]](it, c[2])
         if c[0] == 'par':
             return O.OPS[c[1]](b.size, c[2])
+        if c[0] == 'pair':
+            return O.elem_within(it, b, slack=c[2]) if c[1] == 'fn_parent' else O.elem_within(elem=it, parent=b, slack=c[2])
         if c[0] == 'not':
             return not_(build(c[1], b, it))
         return (and_ if c[0] == 'and' else or_)(build(c[1], b, it), build(c[2], b, it))
 
     def n_elem(c):
-        return 1 if c[0] == 'elem' else (0 if c[0] == 'par' else sum(n_elem(x) for x in c[1:]))
+        return 1 if c[0] in ('elem', 'pair') else (0 if c[0] == 'par' else sum(n_elem(x) for x in c[1:]))
     cond = gen(p.get('depth', 2))
     try:
         with symbolic_mode():
@@ -607,7 +614,17 @@ def run_subquery_case(p):
         with symbolic_mode():
             x = let(type_=O.Item, domain=d0)
             y = let(type_=O.Item, domain=d1)
-            if p.get('correlated'):
+            if p.get('binds_new'):
+                # the sub-query's variable x is already bound when the sub-query is reached (a condition on x stands before
+                # it, or it is a comparison operand after such a condition); its own condition relates x to y, which the
+                # sub-query binds: EVERY matching y comes up, as with the condition inlined
+                sub = an(entity(x, O.build(c1, [x, y])))
+                pre = O.build(c0, [x])
+                if conn == 'and':
+                    cond = and_(pre, sub)
+                else:
+                    cond = and_(pre, sub.size >= 0)       # the sub-query as a comparison operand (through an attribute)
+            elif p.get('correlated'):
                 # the sub-query's own condition mentions the outer variable y; it stands after conditions on x and y
                 # (so the enclosing conjunction sees it for several y per x and for several x per y)
                 sub = an(entity(x, O.build(c1, [x, y])))
@@ -622,6 +639,8 @@ def run_subquery_case(p):
         got = sorted((id(r[x]), id(r[y])) for r in q.evaluate())
         def sat(a, b):
             l, r = O.holds(c0, {0: a}), O.holds(c1, {0: a, 1: b})
+            if p.get('binds_new'):
+                return l and r
             return (l and r) if conn == 'and' else (l or r)
         want = sorted((id(a), id(b)) for a in d0 for b in d1 if sat(a, b))
     except Exception as e:  # noqa
